@@ -65,7 +65,9 @@ def _case(draw, tier):
     # calls on the other pids BEFORE the target is stored (they may own the content first)
     pre = draw(st.lists(alphabet(cfg["algo"]), min_size=0, max_size=3)) if with_pid else []
     return {"cfg": cfg, "contents": [content, other], "docs": [{"hex": "6d657461"}], "kind": kind,
-            "offset": offset, "with_pid": with_pid, "reject_first": reject_first, "ops": hist, "pre": pre}
+            "offset": offset, "with_pid": with_pid, "reject_first": reject_first, "ops": hist, "pre": pre,
+            # the caller hands the very same stream object to a second store_object (another pid) right after the first returned
+            "reuse_stream": draw(st.integers(0, 3)) == 0}
 
 
 def strategy(tier):
@@ -272,6 +274,17 @@ def run_case(case, ctx):
     if om.obj_size != len(data):
         ctx.violation("wrong-size", f"obj_size {om.obj_size} != {len(data)} (kind={kind}, offset={offset})")
     _check_stream(ctx, r, "store_object")
+    if case.get("reuse_stream") and r.extra.get("stream") and not r.extra["stream"]["closed"]:
+        # "A stream supplied by the caller is left open and at its original offset": so it can be handed over again as it is
+        r2 = run.step({"op": "store", "pid": "reuse:" + TARGET, "c": 0, "kind": kind, "offset": offset, "reuse_stream": True})
+        if not is_ok(r2.out):
+            ctx.violation("store-failed", f"second store_object with the same {kind} stream (as the first call left it) raised "
+                          f"{r2.out[1]}: {r2.out[2]}", {"kind_arg": kind, "err": r2.out[1], "what": "stream re-used"})
+        elif r2.out[1].cid != want or r2.out[1].obj_size != len(data):
+            ctx.violation("cid-not-digest", f"second store_object with the same {kind} stream reported cid {r2.out[1].cid[:16]}.. / "
+                          f"{r2.out[1].obj_size} bytes, the content has {want[:16]}.. / {len(data)}", {"what": "stream re-used"})
+        _check_stream(ctx, r2, "the second store_object with the same stream")
+        ctx.classify("stream-handed-over-twice")
 
     def check_retrieve(when):
         out = common.retrieve_bytes(run.store, pid)
